@@ -744,6 +744,21 @@ func (v *Verifier) autoInvariants(li *loopInfo) []*Clause {
 			Raw: func(phis []Value, operand func(interface{}) string) string {
 				return "(>= " + phis[idx].T + " " + lit + ")"
 			}}
+		// counting loop `for i := c; i < X; i += d`: the guard phi < X in the head block keeps the step from wrapping, so the
+		// lower bound alone is inductive
+		stepOne := false
+		if step != nil {
+			if cc, ok := step.Y.(*ssa.Const); ok && cc.Value != nil && cc.Value.ExactString() == "1" {
+				stepOne = true
+			}
+		}
+		if stepOne && step.Block() != li.head && li.body[step.Block()] {
+			if ifi, ok := li.head.Instrs[len(li.head.Instrs)-1].(*ssa.If); ok {
+				if cmp, ok := ifi.Cond.(*ssa.BinOp); ok && cmp.Op == token.LSS && cmp.X == ssa.Value(ph) && len(li.head.Succs) == 2 && li.body[li.head.Succs[0]] {
+					out = append(out, lo)
+				}
+			}
+		}
 		// guard of the form (phi + c) < X in the head block, X defined outside the loop; the lower
 		// bound alone is not inductive (wrap-around), so both bounds are added together or not at all
 		if step != nil && step.Block() == li.head {
